@@ -427,10 +427,20 @@ func NewAdmission(cfg *CfgSpec, ev policy.Evaluator, rec metrics.Recorder, ns ad
 	el, evv := levelStr(cfg.Defaults.Enforce)
 	al, av := levelStr(cfg.Defaults.Audit)
 	wl, wv := levelStr(cfg.Defaults.Warn)
+	// exemption lists as a decoder leaves them: private backing arrays with spare capacity
+	// (code that appends to one list must not be able to disturb another, or this one)
+	spare := func(l []string) []string {
+		if l == nil {
+			return nil
+		}
+		out := make([]string, len(l), len(l)+4)
+		copy(out, l)
+		return out
+	}
 	a := &admission.Admission{
 		Configuration: &admissionapi.PodSecurityConfiguration{
 			Defaults:   admissionapi.PodSecurityDefaults{Enforce: el, EnforceVersion: evv, Audit: al, AuditVersion: av, Warn: wl, WarnVersion: wv},
-			Exemptions: admissionapi.PodSecurityExemptions{Usernames: cfg.ExUsers, Namespaces: cfg.ExNS, RuntimeClasses: cfg.ExRCs},
+			Exemptions: admissionapi.PodSecurityExemptions{Usernames: spare(cfg.ExUsers), Namespaces: spare(cfg.ExNS), RuntimeClasses: spare(cfg.ExRCs)},
 		},
 		Evaluator: ev, Metrics: rec, PodSpecExtractor: admission.DefaultPodSpecExtractor{}, NamespaceGetter: ns, PodLister: lister,
 	}
